@@ -1,6 +1,6 @@
 (** C08 trace monitor: lifecycle — reported lost at most once and never after a local close,
     drained exactly once, silent afterwards, close timer within 3 PTO, a local close announced
-    by the very next poll, TimedOut not before the idle timeout after the last packet.
+    by the very next poll, TimedOut not before the connection's own Idle deadline.
     Projection expected: tags 1,2,3,4,5,6,8,10,12,13,15 in trace order. *)
 From Coq Require Import ZArith List Bool.
 From QV Require Import Lib.Corr Sys.Trace.
@@ -105,10 +105,14 @@ Definition step (s : st) (r : list Z) : option st :=
       else
       if lost c || closed_local c then None
       else
+        (* TimedOut only when the connection's own Idle deadline (last probe, p19) has passed.
+           (The former rule "last routed datagram + idle <= t" was unsound: a routed datagram
+           that is a duplicate or cannot be decrypted does not restart the timer. That the
+           deadline itself lies >= idle after every ACCEPTED packet is Props/C08.v
+           C08_idle_window_lower, checked on the traces by Sys/MonLifecycle.v.) *)
         let timed_ok :=
           negb (fld r 5 =? 6) ||
-          (let idle := pf (lastp c) 13 in
-           (idle <? 0) || (last_rx c + idle <=? t)) in
+          ((0 <=? pf (lastp c) 19) && (pf (lastp c) 19 <=? t)) in
         if timed_ok then
           Some (setc s k {| lost := true; drained := drained c; closed_local := closed_local c;
                             entry := entry c; expect_tx := expect_tx c;
